@@ -379,10 +379,21 @@ type tx3A struct {
 	s   tx3.Store
 	mu  sync.Mutex
 	idx map[string]uint64 // key -> log index (learned from successful creates / gets)
+	// predict (scripted histories only): a watch for a record that does not exist yet names the index the next
+	// Create in that target's log will receive (highest index seen + 1)
+	predict bool
+	top     map[string]uint64
 }
 
-func (a *tx3A) setIdx(k string, i uint64) { a.mu.Lock(); a.idx[k] = i; a.mu.Unlock() }
-func (a *tx3A) getIdx(k string) uint64    { a.mu.Lock(); defer a.mu.Unlock(); return a.idx[k] }
+func (a *tx3A) setIdx(k string, i uint64) {
+	a.mu.Lock()
+	a.idx[k] = i
+	if t := string(tx3Target(k).ID); a.top[t] < i {
+		a.top[t] = i
+	}
+	a.mu.Unlock()
+}
+func (a *tx3A) getIdx(k string) uint64 { a.mu.Lock(); defer a.mu.Unlock(); return a.idx[k] }
 
 // keys k0,k1 live in the log of target ta, the others in tb
 func tx3Target(key string) api3.Target {
@@ -458,7 +469,18 @@ func (a *tx3A) list() ([]*rec, error) {
 	}
 	return r, nil
 }
-func (a *tx3A) canIDWatch(key string) bool { return a.getIdx(key) != 0 }
+func (a *tx3A) canIDWatch(key string) bool {
+	if a.getIdx(key) != 0 {
+		return true
+	}
+	if !a.predict {
+		return false
+	}
+	a.mu.Lock()
+	a.idx[key] = a.top[string(tx3Target(key).ID)] + 1
+	a.mu.Unlock()
+	return true
+}
 func (a *tx3A) watch(ctx context.Context, replay bool, idkey string, out chan<- event) error {
 	ch := make(chan api3.TransactionEvent)
 	var opts []tx3.WatchOption
@@ -587,7 +609,7 @@ func open(kind string, cl *test.Client) adapter {
 		must(err)
 		return a
 	case "tx3":
-		a := &tx3A{idx: map[string]uint64{}}
+		a := &tx3A{idx: map[string]uint64{}, top: map[string]uint64{}}
 		a.s, err = tx3.NewAtomixStore(cl)
 		must(err)
 		return a
